@@ -13,16 +13,54 @@ Oracles
   time_average / spatial_corr / time_corr   reference model on the library's own ParticlePhi (which `order` ties to
                the definition): window mean (C16 text), frame-averaged conditional g(r) of a complex scalar with
                weight Re(A_i conj A_j) (C13 text), origin-averaged normalised autocorrelation (C14 text)
+  history      every method named by the statement twice on one object in a drawn order, interleaved with a second object
+               of the same l; every array / DataFrame handed out is kept alive and re-compared bit for bit after every step
+  sizes        the same oracles at N around 32 / 64 / 100 / 128 (thorough: .. 1025) and 9..11 / 31..33 / 63..65 neighbours
   libfiles     neighbour / weight files written by the library's own writers (Nnearests, cutoffneighbors,
                freud Voronoi + edge lengths) instead of the harness writer; parsed independently for the oracle
 
 Preconditions (only inputs real callers pass): two-dimensional snapshots with the same N / box in all frames; every
 particle has >= 1 listed neighbour (lthorder divides by cn, boo.py L537) and sum |w| > 0 (L550); neighbour ids
-1-based, never the particle itself; weight file consistent with the neighbour file (same cn per row); time_average:
+1-based; weight file consistent with the neighbour file (same cn per row); time_average:
 >= 2 evenly spaced frames and 1 <= floor(period/interval) <= T-1 with period/interval not within rounding of an
-integer unless all quantities are dyadic; spatial_corr: L_min/2/rdelta = nbins + 1/2 (no floor ambiguity).
+integer unless all quantities are dyadic; spatial_corr: nbins = int(L_min/2/rdelta) evaluated in double precision (one
+correctly rounded quotient whatever the order of the two divisions, hence crisp also at nominally integer quotients).
+A particle listed as its own neighbour (accepted by the unchanged lthorder, probed) has a zero-length bond whose angle
+is undefined: no value is asserted for THAT particle, all others are.
 Tolerances are derived per particle from the bond lengths (see boo2ref.psi_frame); half-cell minimum-image ties and
 bonds shorter than 1e-6 of the system size carry no assertion (counted in extra.ambiguous_particles).
+
+CLAUSES (statement / quantifier -> facet : deciding assertion -> populated class tags; counts per quick run in evidence/C10.json)
+  2D configuration    N 3..20 (sizes 31..133, thorough ..1025), gas / lattice / cluster, cell ortho / tri / general (axes
+                      exchanged: upper triangular), any origin, all 4 masks (half of the tilted cases partial), images
+                      outside, integer-dtype snapshot, 1..6 frames (deep: 16), per-frame tilt
+                      -> order : compare_psi -> ortho tri general ppp00..11 tri-ppp01-wraps tri-ppp10-wraps outside-box
+                      int64-snapshot sheared-per-frame-tilt size-boundary-N* wraps-none batch-all-bonds-wrap
+                      bond-cartesian-short-but-wraps tilt-negative tilt-mixed-sign cfg-*
+  neighbour file      random directed / k-nearest / ragged lists, entries by distance / id / reverse id / random, id text
+                      7 / 7.0 / 7.000000e+00, rows in any id order, two separators, Nmax default (10) / equal / larger /
+                      truncating, cn 9..11 around the default Nmax and 31..33 / 63..65, self-listed neighbour
+                      -> order : compare_psi -> lists-* order-* idfmt* rows-shuffled Nmax-* cn-boundary-* default-Nmax-truncates
+                      cn-varies-in-frame frame-has-cn1-and-cn>=3 self-listed-neighbour
+  neighbour definitions -> libfiles -> writer-*
+  weight file (incl. negative weights)   none / positive / signed with zeros / all equal (either sign) / integer text; five
+                      number formats; weight rows shuffled independently -> order : compare_psi -> w-* wfmt* w-has-negative
+                      weighted-rows-not-id-sorted
+  symmetry l 1..12    python int / numpy int / float -> all facets -> l01..l12 l-odd l-even l-as-*
+  |psi| <= 1          order / lattices / libfiles on every particle (also unasserted ones)
+  = 1 on a perfect l-fold lattice   lattices -> triangular square honeycomb x box-* x l-matched
+  rotation covariance rotation -> phase-generic, mirror
+  time average        time_average: both modes, three calls, npy + snapshot-id files, rows T - w, central ids
+                      -> complex-mean-first modulus-phase-mean-first w1..w6 exact-multiple fractional-period T2-window1
+  spatial correlation spatial_corr: r / gr / gA by the interval rule, csv, two calls -> bins-half bins-integer-quotient
+                      floor-division-would-differ edge-ambiguous-pairs
+  time correlation    time_corr: t axis, C(t), lag 0 == 1, csv, two calls -> spacing-even spacing-uneven spacing-repeated
+                      spacing-back spacing-all-equal spacing-single dt-int
+  histories / averaging windows   history -> same-shape other-shape first-*; time_average second-window-*
+  Weak before round 3 and closed now: sizes stopped at N = 20 / cn = 12; entries inside a row were in distance or random
+  order only; results were compared and discarded at once; spatial_corr / time_corr were evaluated once per object; the
+  snapshot-id file of time_average was never read; integer-text weights, float-text ids, mask / l representations, integer
+  snapshots, general cell matrices, self-listed neighbours, non-monotonic timesteps and integer bin quotients were never drawn.
 """
 from __future__ import annotations
 
@@ -32,7 +70,7 @@ import numpy as np
 from hypothesis import strategies as st
 from hypothesis.extra import numpy as hnp
 
-from ..gen import config_st, fl, frac_st, nice_float, snapshot_from
+from ..gen import cell_st, config_st, fl, frac_st, nice_float, ppp_st, snapshot_from
 from ..harness import Facet, Violation
 from ..ref import boo2ref as R
 from ..ref import geom
@@ -41,33 +79,50 @@ from ..util import arr, close, col, columns, require
 from PyMatterSim.reader.reader_utils import Snapshots
 from PyMatterSim.static.boo import boo_2d
 
-RULE = ("2D configurations (orthogonal / triclinic cell, any origin, all periodicity masks, particles inside or in "
-        "neighbouring images; gas / lattice / cluster; N 3..20; 1..6 frames, small-step or independent) x synthetic "
-        "neighbour files (random asymmetric / k-nearest / ragged k-nearest; rows in any id order; Nmax default / "
-        "equal to max cn / larger / truncating) x weight files (none / positive / signed with zeros / all-equal; "
-        "four number formats) x l 1..12. Extension 1: sheared trajectories (triclinic, >= 2 frames, xy tilt different in "
-        "every frame, same boxlength; each frame's snapshot and oracle use that frame's cell), 'ragged-forced' lists "
-        "(within one frame one particle with the frame-maximum cn and one with a single neighbour, particle 0 being "
-        "one of them in half of the cases), repeated calls on one object (lthorder x3 interleaved with a second "
-        "object; time_average mode A/window w, then mode not-A/window w2, then A/w again), T = 2 with window 1. non-trivial (order, rotation, libfiles) = coordination numbers differ between "
-        "particles, or weights non-uniform, or >= 2 frames; and at least one asserted particle has |psi| > 1e-3")
+RULE = ("2D configurations (orthogonal / triclinic / axes-exchanged general cell, any origin, all periodicity masks with "
+        "half of the tilted cases partial, particles inside or in neighbouring images; gas / lattice / cluster; N 3..20, "
+        "facet sizes 31..133, thorough ..1025; integer-dtype snapshots; 1..6 frames, small-step or independent; sheared "
+        "trajectories = per-frame xy tilt) x synthetic neighbour files (random directed / k-nearest / ragged k-nearest / "
+        "ragged-forced; entries in distance / id / reverse-id / random order; ids as 7 / 7.0 / 7.000000e+00; rows in any id "
+        "order; Nmax default / equal to max cn / larger / truncating; cn 9..11, 31..33, 63..65 in facet sizes; a particle "
+        "listed as its own neighbour) x weight files (none / positive / signed with zeros / all-equal / integer text; five "
+        "number formats) x l 1..12 (int / numpy int / float) x mask as array / list / tuple / float / bool. Repeated calls "
+        "on one object (lthorder x3 interleaved with a second object; time_average mode A/window w, then mode not-A/window "
+        "w2, then A/w again; spatial_corr and time_corr twice; facet history: every method twice in a drawn order on two "
+        "objects of the same l), every result kept alive and re-compared bit for bit. non-trivial (order, rotation, "
+        "libfiles) = coordination numbers differ between particles, or weights non-uniform, or >= 2 frames; and at least "
+        "one asserted particle has |psi| > 1e-3")
 ASSUMPTIONS = [
-    "every particle has >= 1 neighbour and sum|w| > 0; neighbour ids 1-based, no self neighbour; weight rows have the "
-    "same cn as the neighbour rows",
+    "every particle has >= 1 neighbour and sum|w| > 0; neighbour ids 1-based; weight rows have the same cn as the neighbour "
+    "rows; a particle listed as its own neighbour (zero-length bond, undefined angle) carries no assertion itself",
     "minimum image = fractional rounding (contract of C02); half-cell ties and bonds shorter than 1e-6 of the system "
     "size are not asserted",
     "lists longer than Nmax are truncated to their first Nmax entries (reader contract, property C05)",
     "time_average / spatial_corr / time_corr are compared as functions of the library's own ParticlePhi, which the "
-    "'order' facet ties to the definition; floor(period/interval) and L/2/rdelta are generated away from integer "
-    "boundaries (or exactly dyadic)",
+    "'order' facet ties to the definition; floor(period/interval) is generated away from integer boundaries (or exactly "
+    "dyadic); the number of bins is int(Lmin/2/rdelta) evaluated in double precision",
     "spatial_corr: pairs within 1e-9 (relative) of a bin edge may fall in either adjacent bin",
+    "time_corr: all timestep differences equal (also all zero / negative) = origin-averaged, otherwise the first frame is the "
+    "only origin; t = (timestep - first timestep) dt (contract of property C14)",
+    "arrays / DataFrames returned by any method are the caller's: later calls on any boo_2d object leave them bit-for-bit unchanged",
 ]
 
 W_FORMATS = ["%.6f", "%.17g", "%g", "%.3e"]
 W_NAMES = ["edgelengthlist", "weightlist", "facearealist"]
-WCLASSES = ("none", "none", "none", "positive", "positive", "signed", "signed", "equal")
+WCLASSES = ("none", "none", "none", "positive", "positive", "signed", "signed", "equal", "integer")
 LIST_KINDS = ("random", "nearest", "nearest-ragged", "ragged-forced", "ragged-forced")
 NCLASSES = ("default", "default", "equal", "equal", "larger", "larger", "truncating")
+ORDERS = ("asis", "asis", "id", "rev-id", "random")          # order of the entries inside a neighbour row
+PPP_REPRS = ("int64", "int64", "int64", "list", "tuple", "float64", "float32", "int32", "bool")
+L_REPRS = ("int", "int", "int", "np.int64", "np.int32", "float")
+ID_FORMATS = ("%d", "%d", "%d", "%.1f", "%.6e")
+SCHEDULES = ("even", "even", "even", "uneven", "uneven", "repeated", "back", "all-equal")
+PARTIAL_MASKS_2D = ((0, 1), (1, 0))
+# sizes around the block sizes a "vectorised" loop typically uses (EXTENSION_3 class 1)
+NS_QUICK = (31, 32, 33, 63, 64, 65, 99, 100, 101, 127, 128, 129, 133)
+NS_THOROUGH = (170, 199, 200, 201, 255, 256, 257, 266, 341, 499, 500, 501, 511, 512, 513, 1023, 1025)
+CN_BIG_QUICK = (9, 10, 11, 31, 32, 33, 63, 64, 65)
+CN_BIG_THOROUGH = (99, 100, 101, 127, 128, 129)
 
 
 # ============================================================================= generators
@@ -87,14 +142,92 @@ def pick(values):
     return _u32.map(lambda k: values[min(int(_unit(k) * len(values)), len(values) - 1)])
 
 
+def _timesteps(draw, T, spacing):
+    """Timesteps of T frames.  even: constant positive step; uneven: multiples of a step, not all equal; repeated: one
+    step is zero (the same timestep written twice); back: one step is negative; all-equal: every step is zero."""
+    t0 = draw(st.sampled_from([0, 0, 1000, 123456]))
+    step = draw(st.integers(1, 5000))
+    if T < 2:
+        return [t0], "single"
+    if spacing in ("uneven", "repeated", "back") and T < 3:
+        spacing = "even" if spacing == "uneven" else spacing
+    if spacing == "even":
+        inc = [step] * (T - 1)
+    elif spacing == "all-equal":
+        inc = [0] * (T - 1)
+    else:
+        inc = [draw(st.integers(1, 8)) * step for _ in range(T - 1)]
+        if spacing == "uneven":
+            if len(set(inc)) == 1:
+                inc[-1] *= 2
+        elif spacing == "repeated":
+            inc[draw(st.integers(0, T - 2))] = 0
+        else:
+            inc[draw(st.integers(0, T - 2))] *= -1
+    ts = np.concatenate([[t0], t0 + np.cumsum(inc)]).astype(int)
+    if ts.min() < 0:
+        ts = ts - ts.min()
+    return [int(t) for t in ts], spacing
+
+
+def _shear_cells(draw, base, T):
+    """Per-frame cell matrices of a sheared trajectory: the xy tilt differs from frame to frame, lx, ly stay equal."""
+    H = base["cell"]["H"]
+    used = {round(float(H[1, 0] / H[0, 0]), 3)}
+    Hs = [H]
+    for _ in range(1, T):
+        tl = draw(st.integers(-50, 50)) / 100.0
+        while round(tl, 3) in used:
+            tl = tl + 0.07 if tl < 0.4 else tl - 0.93
+        used.add(round(tl, 3))
+        Hk = H.copy()
+        Hk[1, 0] = tl * H[0, 0]
+        Hs.append(Hk)
+    return Hs
+
+
 @st.composite
 def traj_st(draw, frames=(1, 5), cell_kind="any", allow_open=True, force_open=False, nmin=3, nmax=20,
-            spacing="any", outside=True, origin="any", kinds=("gas", "lattice", "cluster")):
+            spacing="any", outside=True, origin="any", kinds=("gas", "lattice", "cluster"), Ns=None, intgrid=False,
+            allow_general=True):
     shear = draw(pick([True, True, False]))          # class choice first (see case_st)
-    base = draw(config_st(d=2, cell_kind=cell_kind, nmin=nmin, nmax=nmax, K=1, frames=(1, 1), allow_open=allow_open,
-                          outside=outside, lmin=2.0, lmax=30.0, origin=origin, kinds=kinds))
+    if Ns is not None or intgrid:
+        # sizes around block sizes / integer coordinates: positions from a numpy generator seeded by a drawn integer
+        cell = draw(cell_st(2, cell_kind, lmin=2.0, lmax=30.0, origin=origin))
+        rng = np.random.default_rng(draw(_u32))
+        if intgrid:
+            # hand-built integer cell (odd edges: no exact half-cell ties on the axes), integer origin, integer coordinates
+            L = np.array([2 * draw(st.integers(2, 14)) + 1 for _ in range(2)])
+            Hi = np.diag(L).astype(float)
+            if cell["kind"] == "tri":
+                Hi[1, 0] = float(draw(st.integers(-(L[0] // 2), L[0] // 2)))
+            cell = dict(cell, H=Hi, lo=np.array([float(draw(st.integers(-20, 20))) for _ in range(2)]), origin="arbitrary")
+            N = draw(st.integers(nmin, min(nmax, int(L[0] * L[1]) // 2)))
+        else:
+            N = draw(pick(Ns))
+        ppp = draw(ppp_st(2, allow_open))
+        base = {"d": 2, "cell": cell, "types": np.ones(N, dtype=int), "ppp": ppp, "K": 1, "kind": "gas", "outside": False,
+                "rng_seeded": True}
+        H, lo = cell["H"], cell["lo"]
+        if intgrid:
+            L = np.diag(H).astype(int)
+            sites = rng.permutation(int(L[0] * L[1]))[:N]
+            # Cartesian integer points; the (integer) tilt only shapes the periodic images
+            base["pos"] = [lo + np.stack([sites // L[1], sites % L[1]], axis=1).astype(float)]
+        else:
+            f0 = rng.random((N, 2))
+            offs = rng.integers(-1, 2, size=(N, 2)).astype(float) * ppp if (outside and draw(st.booleans())) else np.zeros((N, 2))
+            base["outside"] = bool(np.any(offs))
+            base["pos"] = [lo + (f0 + offs) @ H]
+    else:
+        rng = None
+        base = draw(config_st(d=2, cell_kind=cell_kind, nmin=nmin, nmax=nmax, K=1, frames=(1, 1), allow_open=allow_open,
+                              outside=outside, lmin=2.0, lmax=30.0, origin=origin, kinds=kinds))
     if force_open:
         base["ppp"] = np.zeros(2, dtype=int)
+    elif allow_open and base["cell"]["kind"] == "tri" and draw(st.booleans()):
+        # both partial masks on tilted cells are their own populated classes
+        base["ppp"] = np.array(draw(pick(PARTIAL_MASKS_2D)), dtype=int)
     T = draw(pick(range(frames[0], frames[1] + 1)))
     N = len(base["types"])
     H, lo = base["cell"]["H"], base["cell"]["lo"]
@@ -104,44 +237,42 @@ def traj_st(draw, frames=(1, 5), cell_kind="any", allow_open=True, force_open=Fa
         motion = draw(pick(["small-steps", "small-steps", "independent"]))
     # sheared trajectory: triclinic, >= 2 frames, the xy tilt differs from frame to frame while lx, ly stay equal
     # (boo_2d only pins boxlength); frame k has its own cell dict and positions lo + f_k @ H_k
-    sheared = bool(shear and T > 1 and base["cell"]["kind"] == "tri")
-    Hs = [H]
-    if sheared:
-        used = {round(float(H[1, 0] / H[0, 0]), 3)}
-        for _ in range(1, T):
-            tl = draw(st.integers(-50, 50)) / 100.0
-            while round(tl, 3) in used:
-                tl = tl + 0.07 if tl < 0.4 else tl - 0.93
-            used.add(round(tl, 3))
-            Hk = H.copy()
-            Hk[1, 0] = tl * H[0, 0]
-            Hs.append(Hk)
-    else:
-        Hs = [H] * T
+    sheared = bool(shear and T > 1 and base["cell"]["kind"] == "tri" and not intgrid)
+    Hs = _shear_cells(draw, base, T) if sheared else [H] * T
     fprev = np.linalg.solve(H.T, (pos[0] - lo).T).T
     for k in range(1, T):
+        if intgrid:
+            L = np.diag(H).astype(int)
+            sites = rng.permutation(int(L[0] * L[1]))[:N]
+            pos.append(lo + np.stack([sites // L[1], sites % L[1]], axis=1).astype(float))
+            continue
         if motion == "small-steps":
             amp = draw(st.sampled_from([0.01, 0.05, 0.2]))
-            df = draw(hnp.arrays(np.float64, (N, 2), elements=fl(-1.0, 1.0))) * amp
+            df = (rng.uniform(-1.0, 1.0, size=(N, 2)) if rng is not None
+                  else draw(hnp.arrays(np.float64, (N, 2), elements=fl(-1.0, 1.0)))) * amp
             fprev = fprev + df
         else:
-            fprev = draw(frac_st(N, 2))
+            fprev = rng.random((N, 2)) if rng is not None else draw(frac_st(N, 2))
         pos.append(lo + fprev @ Hs[k])
     if sheared:
         base["cells"] = [dict(base["cell"], H=Hk) for Hk in Hs]
-    t0 = draw(st.sampled_from([0, 0, 1000, 123456]))
-    step = draw(st.integers(1, 5000))
     if spacing == "any":
         spacing = draw(pick(["even", "even", "uneven"]))
-    if spacing == "even" or T < 3:
-        ts = [t0 + k * step for k in range(T)]
-        spacing = "even" if T >= 2 else "single"
-    else:
-        inc = [draw(st.integers(1, 8)) * step for _ in range(T - 1)]
-        if len(set(inc)) == 1:
-            inc[-1] *= 2
-        ts = list(np.concatenate([[t0], t0 + np.cumsum(inc)]).astype(int))
-    base.update(pos=pos, timesteps=[int(t) for t in ts], motion=motion, spacing=spacing, sheared=sheared)
+    elif spacing == "schedules":
+        spacing = draw(pick(SCHEDULES))
+    ts, spacing = _timesteps(draw, T, spacing)
+    # general cell matrix (EXTENSION_2 class 10): the tilted cell with the two axes exchanged, P H P^T, is upper triangular;
+    # boo_2d takes whatever snapshot.hmatrix holds.  Positions, origin and mask are permuted consistently.
+    if allow_general and base["cell"]["kind"] == "tri" and draw(pick(range(5))) == 3:
+        sw = [1, 0]
+        cells = base.get("cells") or [base["cell"]] * T
+        cells = [dict(c, H=c["H"][sw][:, sw].copy(), lo=c["lo"][sw].copy(), kind="general", origin="arbitrary") for c in cells]
+        base["cell"] = cells[0]
+        if sheared:
+            base["cells"] = cells
+        pos = [p[:, sw].copy() for p in pos]
+        base["ppp"] = np.asarray(base["ppp"])[sw].copy()
+    base.update(pos=pos, timesteps=ts, motion=motion, spacing=spacing, sheared=sheared, intgrid=bool(intgrid))
     return base
 
 
@@ -163,7 +294,7 @@ def _nearest_table(pos, H, ppp):
 
 
 @st.composite
-def lists_st(draw, traj, cmax=None, kind=None, nclass=None):
+def lists_st(draw, traj, cmax=None, kind=None, nclass=None, order=None, cn_big=None, self_listed=False):
     """Synthetic neighbour lists (per frame, per particle, 0-based) + file layout choices."""
     N = len(traj["types"])
     T = len(traj["pos"])
@@ -172,10 +303,18 @@ def lists_st(draw, traj, cmax=None, kind=None, nclass=None):
     cmax = min(cmax, N - 1)
     if kind is None:
         kind = draw(pick(LIST_KINDS))
+    if order is None:
+        order = draw(pick(ORDERS))
     seed = draw(_u32)
     rng = np.random.default_rng(seed)
+    cb = None
+    if cn_big is not None:
+        ok = [c for c in cn_big if c + 2 <= N - 1]
+        if ok and draw(pick(range(3))) > 0:
+            cb = draw(pick(ok))
     frames = []
     for t in range(T):
+        D = None
         if kind == "random":
             lists = []
             for i in range(N):
@@ -185,8 +324,8 @@ def lists_st(draw, traj, cmax=None, kind=None, nclass=None):
         else:
             k = draw(st.integers(1, cmax))
             D = _nearest_table(traj["pos"][t], cell_of(traj, t)["H"], traj["ppp"])
-            order = np.argsort(D, axis=1, kind="stable")[:, :k]
-            lists = [order[i].astype(int) for i in range(N)]
+            order_tab = np.argsort(D, axis=1, kind="stable")[:, :k]
+            lists = [order_tab[i].astype(int) for i in range(N)]
             if kind in ("nearest-ragged", "ragged-forced"):
                 lists = [L[: int(rng.integers(1, k + 1))] for L in lists]
             if kind == "ragged-forced" and k >= 2:
@@ -196,8 +335,28 @@ def lists_st(draw, traj, cmax=None, kind=None, nclass=None):
                 a, b = (int(v) for v in rng.permutation(N)[:2])
                 if rng.integers(0, 2):
                     a, b = (0, b if b != 0 else a) if rng.integers(0, 2) else (a if a != 0 else b, 0)
-                lists[a] = order[a].astype(int)
-                lists[b] = order[b][:1].astype(int)
+                lists[a] = order_tab[a].astype(int)
+                lists[b] = order_tab[b][:1].astype(int)
+        if cb is not None:
+            # neighbours per particle around a block size / the default Nmax: three particles carry cb-1, cb, cb+1
+            if D is None:
+                D = _nearest_table(traj["pos"][t], cell_of(traj, t)["H"], traj["ppp"])
+            full = np.argsort(D, axis=1, kind="stable")
+            for j, c_ in zip(rng.permutation(np.arange(1, N))[:3], (cb - 1, cb, cb + 1)):
+                lists[int(j)] = full[int(j), :c_].astype(int)
+        if order == "id":
+            lists = [np.sort(L) for L in lists]
+        elif order == "rev-id":
+            lists = [np.sort(L)[::-1].copy() for L in lists]
+        elif order == "random":
+            lists = [rng.permutation(L) for L in lists]
+        if self_listed:
+            # the particle itself among its neighbours (zero-length bond): accepted by the unchanged lthorder; the bond
+            # angle is undefined, so no value is asserted for THAT particle (boo2ref flags it), all others are
+            for i in rng.permutation(N)[:2]:
+                L = lists[int(i)]
+                at = int(rng.integers(0, len(L) + 1))
+                lists[int(i)] = np.concatenate([L[:at], [int(i)], L[at:]]).astype(int)
         frames.append(lists)
     maxcn = max(len(L) for fr in frames for L in fr)
     if nclass is None:
@@ -214,8 +373,12 @@ def lists_st(draw, traj, cmax=None, kind=None, nclass=None):
         Nmax = draw(st.integers(1, maxcn - 1))
     shuffled = draw(st.booleans())
     rows = [(rng.permutation(N) if shuffled else np.arange(N)).astype(int) for _ in range(T)]
-    return {"lists": frames, "lists_kind": kind, "Nmax": Nmax, "nclass": nclass, "rows": rows,
-            "sep": draw(st.sampled_from([" ", "    "])), "seed": seed}
+    if kind == "random" and order == "asis":
+        order = "random"
+    elif order == "asis":
+        order = "distance"
+    return {"lists": frames, "lists_kind": kind, "Nmax": Nmax, "nclass": nclass, "rows": rows, "order": order,
+            "sep": draw(st.sampled_from([" ", "    "])), "seed": seed, "self_listed": bool(self_listed)}
 
 
 @st.composite
@@ -227,26 +390,35 @@ def weights_st(draw, lists, classes=WCLASSES, wclass=None):
     frames = lists["lists"]
     T, N = len(frames), len(frames[0])
     maxcn = max(len(L) for fr in frames for L in fr)
+    big = T * N * maxcn > 3000
+    rng = np.random.default_rng(lists["seed"] + 7)
     if wclass == "equal":
         c = draw(st.sampled_from([1.0, 0.25, 3.5, -2.0]))
         raw = np.full((T, N, maxcn), c)
+    elif wclass == "integer":
+        # integer counts written without a decimal point ("3", "-2", "0"), mixed signs
+        raw = rng.integers(-4, 6, size=(T, N, maxcn)).astype(float)
     elif wclass == "positive":
-        raw = draw(hnp.arrays(np.float64, (T, N, maxcn), elements=st.one_of(fl(0.01, 10.0), st.sampled_from([1.0, 0.5, 2.0]))))
+        raw = rng.uniform(0.01, 10.0, size=(T, N, maxcn)) if big else \
+            draw(hnp.arrays(np.float64, (T, N, maxcn), elements=st.one_of(fl(0.01, 10.0), st.sampled_from([1.0, 0.5, 2.0]))))
     else:
-        raw = draw(hnp.arrays(np.float64, (T, N, maxcn),
-                              elements=st.one_of(st.just(0.0), fl(-10.0, 10.0), st.sampled_from([-1.0, 1.0, -0.5]))))
+        raw = np.where(rng.random((T, N, maxcn)) < 0.1, 0.0, rng.uniform(-10.0, 10.0, size=(T, N, maxcn))) if big else \
+            draw(hnp.arrays(np.float64, (T, N, maxcn),
+                            elements=st.one_of(st.just(0.0), fl(-10.0, 10.0), st.sampled_from([-1.0, 1.0, -0.5]))))
     raw = raw.copy()
     first = raw[:, :, 0]                     # sum|w| > 0 for every particle, also after truncation and '%.6f' rounding
     raw[:, :, 0] = np.where(np.abs(first) < 0.01, np.where(first < 0, -0.5, 0.5), first)
+    if wclass == "integer":
+        raw[:, :, 0] = np.where(raw[:, :, 0] == 0.5, 2.0, np.where(raw[:, :, 0] == -0.5, -3.0, raw[:, :, 0]))
     weights = [[raw[t, i, : len(frames[t][i])].copy() for i in range(N)] for t in range(T)]
     rng = np.random.default_rng(lists["seed"] + 1)
     wrows = [(rng.permutation(N) if draw(st.booleans()) else np.arange(N)).astype(int) for _ in range(T)]
-    return {"wclass": wclass, "weights": weights, "wfmt": draw(pick(W_FORMATS)),
+    return {"wclass": wclass, "weights": weights, "wfmt": "%d" if wclass == "integer" else draw(pick(W_FORMATS)),
             "wname": draw(st.sampled_from(W_NAMES)), "wrows": wrows}
 
 
 @st.composite
-def case_st(draw, frames=(1, 5), l_values=tuple(range(1, 13)), wclasses=WCLASSES, **kw):
+def case_st(draw, frames=(1, 5), l_values=tuple(range(1, 13)), wclasses=WCLASSES, cn_big=None, reprs=True, self_listed=False, **kw):
     # the class-defining choices come first: Hypothesis fills the tail of many examples with minimal choices, which
     # would otherwise pile the cases up in the first class of whatever is drawn last
     l = draw(pick(l_values))
@@ -255,13 +427,20 @@ def case_st(draw, frames=(1, 5), l_values=tuple(range(1, 13)), wclasses=WCLASSES
     kind = draw(pick(LIST_KINDS))
     nclass = draw(pick(NCLASSES))
     cmax = draw(pick([3, 6, 8, 8, 12]))
-    traj = draw(traj_st(frames=(T, T), **kw))
-    lists = draw(lists_st(traj, cmax=cmax, kind=kind, nclass=nclass))
+    order = draw(pick(ORDERS))
+    ppp_repr = draw(pick(PPP_REPRS)) if reprs else "int64"
+    l_repr = draw(pick(L_REPRS)) if reprs else "int"
+    idfmt = draw(pick(ID_FORMATS)) if reprs else "%d"
+    intgrid = bool(reprs and kw.get("Ns") is None and not kw.get("force_open") and kw.get("cell_kind", "any") == "any"
+                   and draw(pick(range(8))) == 3)
+    selfl = bool(self_listed and draw(pick(range(6))) == 3)
+    traj = draw(traj_st(frames=(T, T), intgrid=intgrid, **kw))
+    lists = draw(lists_st(traj, cmax=cmax, kind=kind, nclass=nclass, order=order, cn_big=cn_big, self_listed=selfl))
     w = draw(weights_st(lists, wclasses, wclass=wclass))
     case = dict(traj)
     case.update(lists)
     case.update(w)
-    case["l"] = l
+    case.update(l=l, ppp_repr=ppp_repr, l_repr=l_repr, idfmt=idfmt)
     return case
 
 
@@ -287,15 +466,29 @@ def oracle_weights(case):
     return [[np.array([float(fmt % v) for v in w]) for w in fr] for fr in case["weights"]]
 
 
+def snapshot_int(cell, pos, types, ts):
+    """Hand-built snapshot whose positions / hmatrix / boxlength are int64 arrays (the values are integers)."""
+    from PyMatterSim.reader.reader_utils import SingleSnapshot
+    H = np.asarray(cell["H"])
+    Hi, pi, loi = np.rint(H).astype(np.int64), np.rint(pos).astype(np.int64), np.rint(cell["lo"]).astype(np.int64)
+    assert np.array_equal(Hi, H) and np.array_equal(pi, pos)
+    L = np.diag(Hi).copy()
+    return SingleSnapshot(timestep=int(ts), nparticle=len(pi), particle_type=np.array(types, dtype=int), positions=pi,
+                          boxlength=L, boxbounds=np.stack([loi, loi + L], axis=1), realbounds=None, hmatrix=Hi.copy())
+
+
 def make_snapshots(case, pos=None):
+    # integer snapshots only for the case's own (integer) positions; shifted / rotated copies are float
+    build = snapshot_int if (case.get("intgrid") and pos is None) else snapshot_from
     pos = case["pos"] if pos is None else pos
-    snaps = [snapshot_from(cell_of(case, t), p, case["types"], ts) for t, (p, ts) in enumerate(zip(pos, case["timesteps"]))]
+    snaps = [build(cell_of(case, t), p, case["types"], ts) for t, (p, ts) in enumerate(zip(pos, case["timesteps"]))]
     return Snapshots(nsnapshots=len(snaps), snapshots=snaps)
 
 
 def write_files(case, tag=""):
     nb = os.path.join(os.getcwd(), f"nb{tag}.dat")
-    write_listfile(nb, case["lists"], "neighborlist", case["rows"], case["sep"], lambda j: str(int(j) + 1))
+    idfmt = case.get("idfmt", "%d")     # neighbour entries as "7", "7.0" or "7.000000e+00" (the reader takes float(entry))
+    write_listfile(nb, case["lists"], "neighborlist", case["rows"], case["sep"], lambda j: idfmt % (int(j) + 1))
     wf = ""
     if case["weights"] is not None:
         wf = os.path.join(os.getcwd(), f"w{tag}.dat")
@@ -304,12 +497,29 @@ def write_files(case, tag=""):
     return nb, wf
 
 
+def ppp_as(ppp, kind):
+    """The same mask in another accepted representation (probed on the unchanged tree: identical results)."""
+    p = [int(x) for x in ppp]
+    if kind == "list":
+        return p
+    if kind == "tuple":
+        return tuple(p)
+    if kind == "bool":
+        return np.array(p, dtype=bool)
+    return np.array(p, dtype={"int64": np.int64, "float64": np.float64, "float32": np.float32, "int32": np.int32}[kind])
+
+
+def l_as(l, kind):
+    return {"int": int, "np.int64": np.int64, "np.int32": np.int32, "float": float}[kind](l)
+
+
 def run_boo(case, nb, wf, pos=None, ppp=None, **extra):
-    kw = dict(l=case["l"], neighborfile=nb, ppp=np.array(case["ppp"] if ppp is None else ppp, dtype=int))
+    kw = dict(l=l_as(case["l"], case.get("l_repr", "int")), neighborfile=nb,
+              ppp=ppp_as(case["ppp"] if ppp is None else ppp, case.get("ppp_repr", "int64")))
     if wf:
         kw["weightsfile"] = wf
     if case["Nmax"] is not None:
-        kw["Nmax"] = int(case["Nmax"])
+        kw["Nmax"] = np.int64(case["Nmax"]) if case.get("l_repr") == "np.int64" else int(case["Nmax"])
     kw.update(extra)
     return boo_2d(make_snapshots(case, pos), **kw)
 
@@ -334,25 +544,78 @@ def compare_psi(name, got, ref, tol, amb, factor=1.0):
                         f"allowed {factor * tol[t, i]:.3e})")
 
 
+def same_bits(name, now, then):
+    """A result handed out earlier is bit-for-bit what it was when it was returned (EXTENSION_3 class 3)."""
+    a, b = np.asarray(now), np.asarray(then)
+    require(a.shape == b.shape and np.array_equal(a, b, equal_nan=a.dtype.kind in "fc"),
+            lambda: f"{name}: a result returned earlier changed after later calls on the library")
+
+
 def reference(case, pos=None, ppp=None, weights="case"):
     w = oracle_weights(case) if weights == "case" else weights
     return R.psi_traj(case["pos"] if pos is None else pos, Hs_of(case),
                       np.asarray(case["ppp"] if ppp is None else ppp), case["lists"], case["l"], w, eff_nmax(case))
 
 
+def geometry_tags(case):
+    """Measured classes of the bond geometry: wrapping (per particle batch), the tilted-cell critical region."""
+    ppp = np.asarray(case["ppp"])
+    nm = eff_nmax(case)
+    wraps = allwrap = crit = False
+    for t, lists in enumerate(case["lists"]):
+        H = cell_of(case, t)["H"]
+        L = np.diag(H)
+        scale = float(np.abs(H).max())
+        p = case["pos"][t]
+        for i, nb in enumerate(lists):
+            nb = np.asarray(nb[:nm], dtype=int)
+            raw = p[nb] - p[i]
+            v = geom.min_image(raw, H, ppp)[0]
+            wr = np.abs(raw - v).max(axis=1) > 1e-9 * scale
+            wraps = wraps or bool(wr.any())
+            allwrap = allwrap or bool(len(nb) >= 2 and wr.all())
+            crit = crit or bool(np.any(wr & np.all(np.abs(raw) < 0.5 * L, axis=1)))
+    tags = ["wraps-some" if wraps else "wraps-none"]
+    if allwrap:
+        tags.append("batch-all-bonds-wrap")
+    if crit:
+        tags.append("bond-cartesian-short-but-wraps")
+    if case["cell"]["kind"] in ("tri", "general"):
+        mask = "".join(str(int(x)) for x in ppp)
+        tags.append(f"tri-ppp{mask}" + ("-wraps" if wraps else ""))
+        tl = [cell_of(case, t)["H"][1, 0] + cell_of(case, t)["H"][0, 1] for t in range(len(case["pos"]))]
+        tags.append("tilt-mixed-sign" if min(tl) < 0 < max(tl) else ("tilt-negative" if min(tl) < 0 else "tilt-nonnegative"))
+    return tags
+
+
 def common_tags(case, amb=None):
     cns = [min(len(L), eff_nmax(case)) for fr in case["lists"] for L in fr]
     ppp = np.asarray(case["ppp"])
+    N = len(case["types"])
     tags = [case["cell"]["kind"], "ppp" + "".join(str(int(p)) for p in ppp), f"T{len(case['pos'])}", f"l{case['l']:02d}",
             "w-" + case["wclass"], "lists-" + case["lists_kind"], "Nmax-" + case["nclass"], "cfg-" + case["kind"].split("-jit")[0],
             "rows-shuffled" if any(np.any(np.diff(r) < 0) for r in case["rows"]) else "rows-sorted",
-            "N<8" if len(case["types"]) < 8 else "N>=8"]
+            "N<8" if N < 8 else "N>=8", "order-" + case.get("order", "asis"), "idfmt" + case.get("idfmt", "%d"),
+            "ppp-as-" + case.get("ppp_repr", "int64"), "l-as-" + case.get("l_repr", "int"), "l-odd" if case["l"] % 2 else "l-even"]
     if case.get("outside"):
         tags.append("outside-box")
+    if case.get("intgrid"):
+        tags.append("int64-snapshot")
+    if case.get("self_listed"):
+        tags.append("self-listed-neighbour")
+    if N >= 31:
+        tags.append(f"size-boundary-N{N}")
+    raw = sorted({len(L) for fr in case["lists"] for L in fr})
+    for c in [c for c in raw if c >= 9][-3:]:
+        tags.append(f"cn-boundary-{c}")
+    if case["Nmax"] is None and raw[-1] > 10:
+        tags.append("default-Nmax-truncates")
     if case["weights"] is not None:
         tags.append("wfmt" + case["wfmt"])
         if any(np.any(w < 0) for fr in oracle_weights(case) for w in fr):
             tags.append("w-has-negative")
+        if case.get("order") in ("distance", "rev-id", "random"):
+            tags.append("weighted-rows-not-id-sorted")
     if len(set(cns)) > 1:
         tags.append("cn-varies")
     per_frame = [[min(len(L), eff_nmax(case)) for L in fr] for fr in case["lists"]]
@@ -366,12 +629,12 @@ def common_tags(case, amb=None):
         tags.append("sheared-per-frame-tilt")
     if amb is not None and amb.any():
         tags.append("has-ambiguous")
-    return tags
+    return tags + geometry_tags(case)
 
 
 def is_nontrivial(case, ref, amb):
     cns = [min(len(L), eff_nmax(case)) for fr in case["lists"] for L in fr]
-    varied = len(set(cns)) > 1 or case["wclass"] in ("positive", "signed") or len(case["pos"]) >= 2
+    varied = len(set(cns)) > 1 or case["wclass"] in ("positive", "signed", "integer") or len(case["pos"]) >= 2
     live = bool(np.any((np.abs(ref) > 1e-3) & ~amb))
     return bool(varied and live)
 
@@ -380,8 +643,8 @@ def is_nontrivial(case, ref, amb):
 
 
 @st.composite
-def order_case(draw):
-    case = draw(case_st())
+def order_case(draw, **kw):
+    case = draw(case_st(self_listed=True, **kw))
     N = len(case["types"])
     case["shift"] = draw(hnp.arrays(np.int64, (N, 2), elements=st.integers(-2, 2)))
     case["translate"] = draw(hnp.arrays(np.float64, (2,), elements=fl(-3.0, 3.0)))
@@ -417,14 +680,21 @@ def check_order(case):
     # state between calls: lthorder() called again on the FIRST object (as the repository's test does), after a second
     # object with other positions has been evaluated, then with another output file, and on the second object:
     # every call must return the numbers of its own object
-    again = arr("lthorder() second call", boo.lthorder(), shape=(T, N)).astype(np.complex128)
+    first_attr = boo.ParticlePhi
+    raw_again = boo.lthorder()
+    again = arr("lthorder() second call", raw_again, shape=(T, N)).astype(np.complex128)
     close("lthorder() second call on the first object", again, phi, rtol=0, atol=1e-14)
     phi2 = os.path.join(os.getcwd(), "phi2.npy")
-    third = arr("lthorder(output_phi)", boo.lthorder(phi2), shape=(T, N)).astype(np.complex128)
+    raw_third = boo.lthorder(phi2)
+    third = arr("lthorder(output_phi)", raw_third, shape=(T, N)).astype(np.complex128)
     close("lthorder(output_phi) third call", third, phi, rtol=0, atol=1e-14)
     require(os.path.exists(phi2), "lthorder(output_phi): no file written")
     close("lthorder(output_phi) file", np.load(phi2), phi, rtol=0, atol=1e-14)
     close("lthorder() on the second object", arr("lthorder()", boo_m.lthorder(), shape=(T, N)).astype(np.complex128), phim, rtol=0, atol=1e-14)
+    # results handed out earlier are still what they were (the constructor's array, the second and the third result)
+    same_bits("ParticlePhi of the first object after later lthorder() calls", first_attr, phi)
+    same_bits("lthorder() second result after later calls", raw_again, again)
+    same_bits("lthorder(output_phi) third result after later calls", raw_third, third)
     tags = common_tags(case, amb) + (["psi0-clearly-nonzero"] if np.all(np.abs(ref[:, 0]) > 0.1) else [])
     return {"nontrivial": is_nontrivial(case, ref, amb), "tags": tags,
             "extra": {"ambiguous_particles": int(amb.sum()), "asserted_particles": int((~amb).sum())}}
@@ -582,13 +852,13 @@ def check_lattice(case):
 
 
 @st.composite
-def tavg_case(draw):
-    T = draw(pick(range(2, 8)))
+def tavg_case(draw, tmax=7, **kw):
+    T = draw(pick(range(2, tmax + 1)))
     w = draw(pick(range(1, T)))
     w2 = draw(pick(range(1, T)))
     dyadic = draw(pick([True, False]))
     mode = draw(pick([True, False]))
-    case = draw(case_st(frames=(T, T), spacing="even", nmax=12))
+    case = draw(case_st(frames=(T, T), spacing="even", **dict(dict(nmax=12), **kw)))
     if dyadic:
         dt = 2.0 ** -draw(st.integers(4, 12))
         frac = draw(st.one_of(st.just(0.0), st.just(0.0), st.sampled_from([0.25, 0.5, 0.75])))
@@ -607,6 +877,8 @@ def check_tavg(case):
     boo = run_boo(case, nb, wf)
     phi = phi_of("ParticlePhi", boo, T, N)
     interval = (case["timesteps"][1] - case["timesteps"][0]) * case["dt"]
+
+    held = []
 
     def one_call(tag, w, mode, save):
         period = (w + case["frac"]) * interval
@@ -635,6 +907,16 @@ def check_tavg(case):
         if save:
             require(os.path.exists(out), f"{name}: outputfile given but not written")
             close(f"{name} saved array", np.load(out), vals, rtol=0, atol=0)
+            idf = out + ".snapshot_id.dat"
+            require(os.path.exists(idf), f"{name}: {os.path.basename(idf)} not written")
+            with open(idf) as fh:
+                head = fh.readline().strip()
+            require(head == "middle_snapshot_id", lambda: f"{name}: header of the snapshot-id file is {head!r}")
+            close(f"{name} snapshot-id file", np.loadtxt(idf, skiprows=1, ndmin=1), ids, rtol=0, atol=0)
+        for hname, now, then in held:          # after EVERY call: what was handed out before is unchanged
+            same_bits(hname + f" (after the {tag} call)", now, then)
+        held.append((f"{name} values", res[0], np.array(res[0], copy=True)))
+        held.append((f"{name} middle ids", res[1], np.array(res[1], copy=True)))
         # ParticlePhi itself must not be modified by the call
         close(f"ParticlePhi after {name}", boo.ParticlePhi, phi, rtol=0, atol=0)
 
@@ -644,6 +926,8 @@ def check_tavg(case):
     # window, then the first arguments once more
     one_call("second", w2, not mode, False)
     one_call("third", w, mode, False)
+    for name, now, then in held:
+        same_bits(name, now, then)
     tags = common_tags(case) + [f"w{w}", "exact-multiple" if case["frac"] == 0 else "fractional-period",
                                 "complex-mean-first" if mode else "modulus-phase-mean-first",
                                 "dt-dyadic" if case["dyadic"] else "dt-decimal", "w-even" if w % 2 == 0 else "w-odd",
@@ -654,12 +938,40 @@ def check_tavg(case):
 
 
 @st.composite
-def scorr_case(draw):
+def scorr_case(draw, frames=(1, 3), **kw):
     nb = draw(pick(range(2, 31)))
-    case = draw(case_st(frames=(1, 3), nmax=14, outside=draw(st.booleans())))
+    bincls = draw(pick(["half", "half", "integer-quotient"]))
+    case = draw(case_st(frames=frames, **dict(dict(nmax=14, outside=draw(st.booleans())), **kw)))
     Lmin = float(np.diag(case["cell"]["H"]).min())
-    case.update(nbins=nb, rdelta=Lmin / 2.0 / (nb + 0.5), save=draw(st.booleans()))
+    # nbins = int(Lmin / 2 / rdelta), the documented formula: one correctly rounded quotient whatever the order of the two
+    # divisions (halving / doubling are exact), so it is crisp also where the quotient is nominally an integer.
+    # half: quotient nb + 1/2; integer-quotient: rdelta = fl(Lmin / (2 nb)), e.g. L = 10, rdelta = 0.1 -> 50 bins
+    # (floor division of the doubles would give 49)
+    rdelta = Lmin / 2.0 / (nb + 0.5) if bincls == "half" else Lmin / (2.0 * nb)
+    case.update(nbins=int(Lmin / 2.0 / rdelta), rdelta=rdelta, bincls=bincls, save=draw(st.booleans()))
     return case
+
+
+def _compare_scorr(case, name, df, acc, phi, nbins, T):
+    columns(name, df, ["r", "gr", "gA"])
+    r, gr, gA = (arr(f"{name}[{c}]", col(name, df, c), shape=(nbins,)) for c in ("r", "gr", "gA"))
+    tie_tri = case["cell"]["kind"] in ("tri", "general") and any(a[6] for a in acc)
+    r_ref = acc[0][0]
+    lo = sum(a[1] for a in acc) / T
+    hi = sum(a[2] for a in acc) / T
+    gA_ref = sum(a[3] for a in acc) / T
+    slack = sum(a[4] for a in acc) / T
+    close(f"{name} r", r, r_ref, rtol=1e-9, atol=1e-12)
+    if not tie_tri:
+        tol = 1e-9 * (1 + np.abs(hi))
+        bad = ~((gr >= lo - tol) & (gr <= hi + tol))
+        require(not bad.any(), lambda: f"{name} gr: bin {int(np.flatnonzero(bad)[0])}: got {gr[bad][0]!r}, "
+                                       f"reference interval [{lo[bad][0]!r}, {hi[bad][0]!r}]")
+        scale = np.abs(phi).max() ** 2
+        tolA = slack + 1e-9 * (np.abs(gA_ref) + scale * hi) + 1e-12
+        bad = ~(np.abs(gA - gA_ref) <= tolA)
+        require(not bad.any(), lambda: f"{name} gA: bin {int(np.flatnonzero(bad)[0])}: got {gA[bad][0]!r}, reference "
+                                       f"{gA_ref[bad][0]!r} +- {tolA[bad][0]:.3e} (weight Re(A_i conj A_j), frame average)")
 
 
 def check_scorr(case):
@@ -671,28 +983,20 @@ def check_scorr(case):
     L = np.diag(case["cell"]["H"]).copy()
     assert int(L.min() / 2.0 / rdelta) == nbins
     out = os.path.join(os.getcwd(), "gl.csv")
-    df = boo.spatial_corr(rdelta=rdelta, outputfile=out) if case["save"] else boo.spatial_corr(rdelta=rdelta)
-    columns("spatial_corr", df, ["r", "gr", "gA"])
-    r, gr, gA = (arr(f"spatial_corr[{c}]", col("spatial_corr", df, c), shape=(nbins,)) for c in ("r", "gr", "gA"))
     acc = [R.conditional_gr_complex(p, cell_of(case, t)["H"], L, case["ppp"], phi[t], rdelta, nbins) for t, p in enumerate(case["pos"])]
-    tie_tri = case["cell"]["kind"] == "tri" and any(a[6] for a in acc)
-    r_ref = acc[0][0]
-    lo = sum(a[1] for a in acc) / T
+    df = boo.spatial_corr(rdelta=rdelta, outputfile=out) if case["save"] else boo.spatial_corr(rdelta=rdelta)
+    _compare_scorr(case, "spatial_corr", df, acc, phi, nbins, T)
+    # second evaluation on the same object (after a time_corr call): same oracle; the first DataFrame is unchanged
+    kept = df.values.copy()
+    boo.time_corr(dt=0.002)
+    _compare_scorr(case, "spatial_corr, second call", boo.spatial_corr(rdelta=rdelta), acc, phi, nbins, T)
+    same_bits("spatial_corr DataFrame after later calls", df.values, kept)
+    close("ParticlePhi after spatial_corr / time_corr", boo.ParticlePhi, phi, rtol=0, atol=0)
+    r, gr, gA = (col("spatial_corr", df, c) for c in ("r", "gr", "gA"))
+    tie_tri = case["cell"]["kind"] in ("tri", "general") and any(a[6] for a in acc)
     hi = sum(a[2] for a in acc) / T
     gA_ref = sum(a[3] for a in acc) / T
-    slack = sum(a[4] for a in acc) / T
     namb = sum(a[5] for a in acc)
-    close("spatial_corr r", r, r_ref, rtol=1e-9, atol=1e-12)
-    if not tie_tri:
-        tol = 1e-9 * (1 + np.abs(hi))
-        bad = ~((gr >= lo - tol) & (gr <= hi + tol))
-        require(not bad.any(), lambda: f"spatial_corr gr: bin {int(np.flatnonzero(bad)[0])}: got {gr[bad][0]!r}, "
-                                       f"reference interval [{lo[bad][0]!r}, {hi[bad][0]!r}]")
-        scale = np.abs(phi).max() ** 2
-        tolA = slack + 1e-9 * (np.abs(gA_ref) + scale * hi) + 1e-12
-        bad = ~(np.abs(gA - gA_ref) <= tolA)
-        require(not bad.any(), lambda: f"spatial_corr gA: bin {int(np.flatnonzero(bad)[0])}: got {gA[bad][0]!r}, reference "
-                                       f"{gA_ref[bad][0]!r} +- {tolA[bad][0]:.3e} (weight Re(A_i conj A_j), frame average)")
     if case["save"]:
         import pandas as pd
         require(os.path.exists(out), "spatial_corr: outputfile given but not written")
@@ -701,7 +1005,10 @@ def check_scorr(case):
         for c, v in (("r", r), ("gr", gr), ("gA", gA)):
             close(f"spatial_corr csv[{c}]", f[c].values, v, rtol=0, atol=5.1e-9)
     filled = int(np.sum(hi > 0))
-    tags = common_tags(case) + ["edge-ambiguous-pairs" if namb else "no-edge-pairs", "bins<=8" if nbins <= 8 else "bins>8"]
+    tags = common_tags(case) + ["edge-ambiguous-pairs" if namb else "no-edge-pairs", "bins<=8" if nbins <= 8 else "bins>8",
+                                "bins-" + case.get("bincls", "half")]
+    if int(L.min() // (2.0 * rdelta)) != nbins:
+        tags.append("floor-division-would-differ")
     if np.all(np.abs(phi[:, 0]) > 0.1):
         tags.append("psi0-clearly-nonzero")
     if tie_tri:
@@ -711,9 +1018,9 @@ def check_scorr(case):
 
 
 @st.composite
-def tcorr_case(draw):
-    case = draw(case_st(frames=(1, 6), nmax=12))
-    case.update(dt=draw(st.sampled_from([0.002, 0.005, 1.0, 2.0 ** -7])), save=draw(st.booleans()))
+def tcorr_case(draw, frames=(1, 6), **kw):
+    case = draw(case_st(frames=frames, spacing="schedules", **dict(dict(nmax=12), **kw)))
+    case.update(dt=draw(st.sampled_from([0.002, 0.005, 1.0, 2.0 ** -7, 1])), save=draw(st.booleans()))
     return case
 
 
@@ -739,7 +1046,17 @@ def check_tcorr(case):
             f = pd.read_csv(out)
             columns("time_corr csv", f, ["t", "time_corr"])
             close("time_corr csv", f["time_corr"].values, C, rtol=0, atol=5.1e-9)
-    tags = common_tags(case) + ["spacing-" + case["spacing"], "motion-" + case["motion"], "live" if live else "psi-all-zero"]
+    # second evaluation on the same object (after a spatial_corr call): same oracle; the first DataFrame is unchanged
+    kept = df.values.copy()
+    boo.spatial_corr(rdelta=float(np.diag(case["cell"]["H"]).min()) / 5.0)
+    df2 = boo.time_corr(dt=case["dt"])
+    columns("time_corr, second call", df2, ["t", "time_corr"])
+    if live:
+        close("time_corr, second call", arr("time_corr, second call", col("time_corr", df2, "time_corr"), shape=(T,)), C_ref, rtol=1e-9, atol=1e-10)
+    same_bits("time_corr DataFrame after later calls", df.values, kept)
+    close("ParticlePhi after time_corr / spatial_corr", boo.ParticlePhi, phi, rtol=0, atol=0)
+    tags = common_tags(case) + ["spacing-" + case["spacing"], "motion-" + case["motion"], "live" if live else "psi-all-zero",
+                                "dt-int" if isinstance(case["dt"], int) else "dt-float"]
     return {"nontrivial": bool(live and T >= 3), "tags": tags}
 
 
@@ -753,7 +1070,7 @@ def libfiles_case(draw):
         traj = draw(traj_st(frames=(1, 3), cell_kind="ortho", allow_open=False, nmin=9, nmax=20, outside=False,
                             origin=draw(st.sampled_from(["zero", "arbitrary", "centred"])), kinds=("gas", "cluster")))
     else:
-        traj = draw(traj_st(frames=(1, 3), nmin=4, nmax=16))
+        traj = draw(traj_st(frames=(1, 3), nmin=4, nmax=16, allow_general=False))
     case = dict(traj)
     if writer == "voronoi":
         # the tessellation needs distinct points inside the box (coincident points make voro++ spin): jittered grid,
@@ -819,6 +1136,129 @@ def check_libfiles(case):
             "extra": {"ambiguous_particles": int(amb.sum())}}
 
 
+# ============================================================================= facet: call histories, results kept alive
+
+METHODS = ("lthorder", "tavg-complex", "tavg-modphase", "spatial", "time")
+
+
+@st.composite
+def history_case(draw):
+    """Object A (every method named by the statement twice) and object B (SAME l, other data; in half of the cases the
+    same (frames, N), so that a buffer keyed on degree / shape would be shared) used alternately in a drawn order."""
+    T = draw(pick(range(2, 6)))
+    kw = dict(spacing="even", nmax=12, reprs=False)
+    A = draw(case_st(frames=(T, T), **kw))
+    same_shape = draw(pick([True, False]))
+    N = len(A["types"])
+    if same_shape:
+        B = draw(case_st(frames=(T, T), l_values=(A["l"],), nmin=N, **dict(kw, nmax=N)))
+        same_shape = len(B["types"]) == N          # lattice configurations have their own sizes
+    else:
+        B = draw(case_st(frames=(2, 5), l_values=(A["l"],), **kw))
+    ops = [("A", m) for m in METHODS] * 2 + [("B", m) for m in METHODS]
+    order = draw(st.permutations(range(len(ops))))
+    wins = draw(st.lists(st.integers(1, 4), min_size=len(ops), max_size=len(ops)))
+    dt = draw(st.sampled_from([0.002, 2.0 ** -7, 1.0]))
+    case = dict(A)
+    case.update(A=A, B=B, ops=[(ops[i][0], ops[i][1], int(wins[i])) for i in order], same_shape=bool(same_shape), dt=dt)
+    return case
+
+
+def check_history(case):
+    """Every method of boo_2d named by the statement (lthorder, time_average in both modes, spatial_corr, time_corr) is
+    called twice on object A in a drawn order, interleaved with calls on a second object B of the same l built from
+    other data.  Each answer must be the reference for the object and arguments of THAT call; at the end every array /
+    DataFrame handed out earlier, and both ParticlePhi attributes, are bit-for-bit what they were when returned."""
+    objs = {}
+    for key in ("A", "B"):
+        c = case[key]
+        T, N = len(c["pos"]), len(c["types"])
+        nb, wf = write_files(c, tag=key)
+        boo = run_boo(c, nb, wf)
+        phi = phi_of(f"{key}.ParticlePhi", boo, T, N)
+        ref, tol, amb = reference(c)
+        compare_psi(f"{key}.ParticlePhi vs definition", phi, ref, tol, amb)
+        L = np.diag(c["cell"]["H"]).copy()
+        nbins = 6
+        rdelta = float(L.min()) / 2.0 / (nbins + 0.5)
+        objs[key] = dict(case=c, boo=boo, phi=phi, T=T, N=N, L=L, nbins=nbins, rdelta=rdelta, acc=None,
+                         interval=(c["timesteps"][1] - c["timesteps"][0]) * case["dt"])
+    held = [(f"{k}.ParticlePhi", o["boo"].ParticlePhi, o["phi"].copy()) for k, o in objs.items()]
+    for step, (key, meth, win) in enumerate(case["ops"]):
+        o = objs[key]
+        c, boo, phi, T, N = o["case"], o["boo"], o["phi"], o["T"], o["N"]
+        nm = f"step {step}: {key}.{meth}"
+        try:
+            if meth == "lthorder":
+                got = boo.lthorder()
+                close(nm, arr(nm, got, shape=(T, N)).astype(np.complex128), phi, rtol=0, atol=1e-14)
+                held.append((nm, got, np.array(got, copy=True)))
+            elif meth.startswith("tavg"):
+                w = min(win, T - 1)
+                mode = meth == "tavg-complex"
+                res = boo.time_average(time_period=(w + 0.5) * o["interval"], dt=case["dt"], average_complex=mode)
+                require(isinstance(res, tuple) and len(res) == 2, f"{nm}: must return (values, middle ids)")
+                vals = arr(f"{nm} values", res[0], shape=(T - w, N)).astype(np.complex128)
+                want = R.window_average(phi, w) if mode else \
+                    R.window_average(np.abs(phi), w) * np.exp(1j * R.window_average(np.angle(phi), w))
+                close(f"{nm} (window {w})", vals, want, rtol=1e-12, atol=1e-13)
+                ids = arr(f"{nm} middle ids", res[1], shape=(T - w,))
+                require(bool(np.all(np.abs(ids - (np.arange(T - w) + (w - 1) / 2.0)) <= 0.5)), f"{nm}: middle ids {ids.tolist()}")
+                held.append((nm + " values", res[0], np.array(res[0], copy=True)))
+                held.append((nm + " ids", res[1], np.array(res[1], copy=True)))
+            elif meth == "spatial":
+                if o["acc"] is None:
+                    o["acc"] = [R.conditional_gr_complex(p, cell_of(c, t)["H"], o["L"], c["ppp"], phi[t], o["rdelta"], o["nbins"])
+                                for t, p in enumerate(c["pos"])]
+                df = boo.spatial_corr(rdelta=o["rdelta"])
+                _compare_scorr(c, nm, df, o["acc"], phi, o["nbins"], T)
+                held.append((nm, df, df.values.copy()))
+            else:
+                df = boo.time_corr(dt=case["dt"])
+                columns(nm, df, ["t", "time_corr"])
+                t_ref, C_ref, c0 = R.time_correlation(phi, c["timesteps"], case["dt"])
+                close(f"{nm} t", arr(nm, col(nm, df, "t"), shape=(T,)), t_ref, rtol=1e-12, atol=1e-12)
+                if c0 > 1e-6 * N:
+                    close(nm, arr(nm, col(nm, df, "time_corr"), shape=(T,)), C_ref, rtol=1e-9, atol=1e-10)
+                held.append((nm, df, df.values.copy()))
+        except Violation as v:
+            raise Violation(f"{nm}: {v}") from None
+        for name, now, then in held:       # after EVERY step: what was handed out before is unchanged
+            same_bits(f"{name} (checked after {nm})", now.values if hasattr(now, "columns") else now, then)
+    A = case["A"]
+    tags = [f"l{A['l']:02d}", "same-shape" if case["same_shape"] else "other-shape", "first-" + case["ops"][0][0] + "." + case["ops"][0][1],
+            "w-" + A["wclass"], A["cell"]["kind"], f"T{len(A['pos'])}"]
+    live = bool(np.abs(objs["A"]["phi"]).max() > 1e-3)
+    return {"nontrivial": live, "tags": tags, "extra": {"results_kept_alive": len(held)}}
+
+
+# ============================================================================= facet: size boundaries / deep tier
+
+
+@st.composite
+def sized_case(draw, Ns, cn_big, frames=(1, 2), **kw):
+    """Sizes around typical block sizes (particles; neighbours per particle around the default Nmax = 10 and around
+    32 / 64), dispatched over the four groups of quantities."""
+    what = draw(pick(["order", "order", "scorr", "tcorr", "tavg"]))
+    common = dict(Ns=Ns, cn_big=cn_big, **kw)
+    if what == "order":
+        case = draw(order_case(frames=frames, **common))
+    elif what == "scorr":
+        case = draw(scorr_case(frames=(frames[0], min(frames[1], 4)), **common))
+    elif what == "tcorr":
+        case = draw(tcorr_case(frames=(max(frames[0], 2), max(frames[1], 3)), **common))
+    else:
+        case = draw(tavg_case(tmax=max(4, frames[1]), **common))
+    case["what"] = what
+    return case
+
+
+def check_sized(case):
+    out = {"order": check_order, "scorr": check_scorr, "tcorr": check_tcorr, "tavg": check_tavg}[case["what"]](case)
+    out["tags"] = list(out["tags"]) + ["what-" + case["what"]]
+    return out
+
+
 # ============================================================================= registry
 
 
@@ -827,7 +1267,7 @@ def describe(case):
          "N": int(len(case["types"])), "T": len(case["pos"]), "l": int(case["l"]), "cfg": case.get("kind"),
          "timesteps": list(case["timesteps"])}
     for k in ("lists_kind", "Nmax", "wclass", "wfmt", "alpha", "lattice", "box", "w", "period", "dt", "average_complex",
-              "rdelta", "nbins", "writer", "spacing"):
+              "rdelta", "nbins", "writer", "spacing", "order", "what", "ops", "ppp_repr", "l_repr", "idfmt"):
         if k in case:
             v = case[k]
             d[k] = float(v) if isinstance(v, (float, np.floating)) else v
@@ -840,7 +1280,7 @@ def describe(case):
 FACETS = [
     Facet("order", order_case(), check_order, quick=800, thorough=40000, describe=describe, shards_quick=4,
           rule="ParticlePhi / lthorder vs the definition, |psi| <= 1, equal weights == unweighted, image-shift and "
-               "translation invariance; non-trivial as in RULE"),
+               "translation invariance, lthorder three times on one object with the earlier results unchanged; non-trivial as in RULE"),
     Facet("rotation", rotation_case(), check_rotation, quick=400, thorough=20000, describe=describe, shards_quick=2,
           rule="open boundaries: rotation by alpha multiplies psi by e^{i l alpha}, mirror conjugates; non-trivial = RULE "
                "and l*alpha not a multiple of 2 pi"),
@@ -850,13 +1290,26 @@ FACETS = [
                "particle has a full shell and a closed-form value is asserted"),
     Facet("time_average", tavg_case(), check_tavg, quick=400, thorough=20000, describe=describe, shards_quick=2,
           rule="time_average (complex mean / modulus-phase mean) vs window mean of ParticlePhi, T - w rows, central-frame "
-               "indices; non-trivial = window >= 2 frames and >= 2 rows"),
+               "indices, npy and snapshot-id files, three calls with the earlier results unchanged; non-trivial = window >= 2 frames and >= 2 rows"),
     Facet("spatial_corr", scorr_case(), check_scorr, quick=300, thorough=12000, describe=describe, shards_quick=2,
           rule="spatial_corr vs frame-averaged pair histogram weighted by Re(psi_i conj psi_j) with the documented "
-               "normalisation (interval rule at bin edges); non-trivial = >= 2 populated bins and non-zero gA"),
+               "normalisation (interval rule at bin edges; bins int(Lmin/2/rdelta) with half-integer and nominally integer "
+               "quotients), twice on one object; non-trivial = >= 2 populated bins and non-zero gA"),
     Facet("time_corr", tcorr_case(), check_tcorr, quick=400, thorough=20000, describe=describe, shards_quick=2,
-          rule="time_corr vs origin-averaged (even spacing) / single-origin (uneven) normalised autocorrelation of "
-               "ParticlePhi, time axis (ts - ts0) dt, lag zero exactly one; non-trivial = >= 3 frames and psi not ~0"),
+          rule="time_corr vs origin-averaged (all steps equal) / single-origin (otherwise: uneven, repeated, backward) normalised "
+               "autocorrelation of ParticlePhi, time axis (ts - ts0) dt, lag zero exactly one, twice on one object; "
+               "non-trivial = >= 3 frames and psi not ~0"),
+    Facet("history", history_case(), check_history, quick=200, thorough=6000, describe=describe, shards_quick=3,
+          rule="lthorder, time_average (both modes), spatial_corr, time_corr twice each on one object in a drawn order, "
+               "interleaved with a second object of the same l (other data, in half of the cases the same shape): each answer "
+               "is the reference of its own call, all results handed out earlier are bit-for-bit unchanged at the end"),
+    Facet("sizes", sized_case(NS_QUICK, CN_BIG_QUICK, frames=(1, 3)), check_sized, quick=200, thorough=4000, describe=describe, shards_quick=3,
+          rule="N in {31..33, 63..65, 99..101, 127..129, 133} and 9..11 / 31..33 / 63..65 neighbours per particle (default "
+               "Nmax = 10 truncating or not), all four groups of quantities"),
+    Facet("sizes_large", sized_case(NS_THOROUGH, CN_BIG_QUICK + CN_BIG_THOROUGH), check_sized, quick=0, thorough=640, describe=describe,
+          rule="thorough tier only: N in {170, 199..201, 255..257, 266, 341, 499..501, 511..513, 1023, 1025}, up to 129 neighbours"),
+    Facet("deep", sized_case(None, None, frames=(6, 16), nmax=60), check_sized, quick=0, thorough=4000, describe=describe,
+          rule="thorough tier only: up to 16 frames (windows up to 15), N up to 60"),
     Facet("libfiles", libfiles_case(), check_libfiles, quick=200, thorough=8000, describe=describe, shards_quick=2,
           rule="neighbour / weight files produced by Nnearests, cutoffneighbors and the freud Voronoi writer (edge "
                "lengths as weights) are consumed consistently; oracle parses the files independently"),
@@ -865,17 +1318,21 @@ FACETS = [
 MANIFEST = {
     "text": ("boo_2d.ParticlePhi equals mean_j e^{i l theta_ij} (or sum_j w_j e^{i l theta_ij} / sum_j |w_j| with a weight "
              "file, incl. negative and zero weights) over minimum-image bonds for generated 2D trajectories (orthogonal / "
-             "triclinic cells, all masks, 1..6 frames, l 1..12, synthetic neighbour and weight files in the library format "
-             "with shuffled rows and all Nmax regimes); |psi| <= 1; exactly 1 (and e^{i l alpha}) on perfect triangular, "
-             "square and honeycomb lattices; rotation by alpha multiplies every value by e^{i l alpha}, mirror conjugates; "
-             "time_average (both modes), spatial_corr and time_corr equal the window mean, the conditional g(r) with "
-             "weight Re(psi_i conj psi_j) and the normalised autocorrelation of those complex numbers. Facets: order, "
-             "rotation, lattices, time_average, spatial_corr, time_corr, libfiles."),
-    "note": ("Exploration (sampled), small systems (N <= 64). Derived quantities are checked as functions of the library's "
-             "own ParticlePhi. Minimum image = fractional rounding (C02); ties / near-zero bonds not asserted. The Voronoi "
-             "geometry of freud is trusted (only the hand-off through the files is checked). Trusted base: pbt/ref/"
-             "boo2ref.py, pbt/ref/geom.py."),
+             "triclinic / general cells, all masks, 1..6 frames, l 1..12, synthetic neighbour and weight files in the library "
+             "format with shuffled rows, entries in distance / id / random order and all Nmax regimes; sizes around block "
+             "boundaries N 31..133 and 9..65 neighbours, thorough tier N ..1025 and 16 frames); |psi| <= 1; exactly 1 (and "
+             "e^{i l alpha}) on perfect triangular, square and honeycomb lattices; rotation by alpha multiplies every value by "
+             "e^{i l alpha}, mirror conjugates; time_average (both modes, with its files), spatial_corr and time_corr equal the "
+             "window mean, the conditional g(r) with weight Re(psi_i conj psi_j) and the normalised autocorrelation of those "
+             "complex numbers, also when every method is called twice in any order on two objects of the same l, with every "
+             "earlier result kept alive and unchanged. Facets: order, rotation, lattices, time_average, spatial_corr, "
+             "time_corr, history, sizes, sizes_large, deep, libfiles."),
+    "note": ("Exploration (sampled). Derived quantities are checked as functions of the library's "
+             "own ParticlePhi. Minimum image = fractional rounding (C02); ties / near-zero bonds (incl. self-listed "
+             "neighbours) not asserted. The Voronoi geometry of freud is trusted (only the hand-off through the files is "
+             "checked). Trusted base: pbt/ref/boo2ref.py, pbt/ref/geom.py."),
     "technique": ("property-based testing (Hypothesis): reference-model differential (independent psi_l, window mean, "
                   "conditional g(r), time correlation) + metamorphic relations (rotation covariance e^{i l alpha}, mirror "
-                  "conjugation, periodic-image and translation invariance) + closed-form lattice values"),
+                  "conjugation, periodic-image and translation invariance) + closed-form lattice values + call histories "
+                  "with results kept alive"),
 }
